@@ -868,3 +868,66 @@ def rule_noise_keys_cover(ctx: Ctx) -> None:
                                  f"a mapping whose noise sits only there is treated as noise-free", func=f"EvolutionarySolver.{fn.name}",
                                  construct=f"EvolutionarySolver.{fn.name}: mapping summarised over {sorted(keys)}")
     ctx.ok_abstract("keys.cover", f"sections read by the class: {sorted(used)}; {n} literal section lists checked")
+
+
+# --------------------------------------------------------------------------- filter.literals
+
+# (function, edge_dict key) -> literals every selected edge must satisfy: (edge end, operation class, 'is' | 'is-not').
+# Read off the moves' physics and confirmed against today's tree, one reason per line:
+EDGE_FILTER_LITERALS = {
+    ("EvolutionarySolver.add_photon_one_qubit_op", "p"): [(0, "CNOT", "is"),                      # a photon gate goes right behind the photon's emission
+                                                          (1, "OneQubitGateWrapper", "is-not")],     # ... unless a local Clifford already sits there
+    ("EvolutionarySolver.add_emitter_one_qubit_op", "e"): [(0, "OneQubitGateWrapper", "is-not"),     # never two local Cliffords in a row
+                                                           (1, "OneQubitGateWrapper", "is-not"),
+                                                           (1, "Output", "is-not")],                 # nothing after the emitter's last operation
+    ("EvolutionarySolver._select_possible_cnot_position", "e"): [(1, "Output", "is-not")],
+    ("EvolutionarySolver._select_possible_measurement_position", "e"): [(0, "Input", "is-not"), (0, "MeasurementCNOTandReset", "is-not"),
+                                                                        (1, "MeasurementCNOTandReset", "is-not"), (1, "Output", "is-not")],
+    ("EvolutionarySolver._select_possible_measurement_position", "p"): [(0, "Input", "is-not"),   # never in front of the photon's emission
+                                                                        (1, "MeasurementCNOTandReset", "is-not")],
+}
+
+
+def rule_filter_literals(ctx: Ctx) -> None:
+    """filter.literals: the edge filters of the mutation moves, on their truth tables.  For each (move, wire kind) the filter — however it
+    is written — must *imply* every literal of the table above ("the operation at this end of the edge is / is not of class K"); an
+    `or` for an `and`, a flipped `is not`, or a dropped test makes the filter admit an edge the table forbids.  Extra restrictions are
+    allowed.  The filter must also be satisfiable."""
+    from ..boolform import Table
+    import re as _re
+    repo = ctx.repo
+    m = repo.module(EVO)
+    n = 0
+    for (q, kind), lits in EDGE_FILTER_LITERALS.items():
+        fn = repo.anchor(EVO, q)
+        ctx.touch(m, fn)
+        comps = [c for c in ast.walk(fn) if isinstance(c, ast.ListComp) and c.generators[0].ifs
+                 and _re.search(r"edge_dict\[['\"]%s['\"]\]" % kind, norm(c.generators[0].iter))]
+        if not comps:
+            raise AnalysisError(f"{q}: filter over edge_dict['{kind}'] not found")
+        c = comps[0]
+        g = c.generators[0]
+        ev = norm(g.target)
+        tb = Table()
+        f = tb.formula(ast.BoolOp(op=ast.And(), values=list(g.ifs)) if len(g.ifs) > 1 else g.ifs[0], {})
+        rows = list(tb.rows())
+        n += 1
+        if not any(f(a) for a in rows):
+            ctx.fail("filter.literals", m, c, f"{q}: the filter over edge_dict['{kind}'] can never be satisfied", func=q, construct=f"{q}[{kind}]: unsatisfiable")
+            continue
+        bad = []
+        for end, cls_, pol in lits:
+            keys = [k for k in tb.atoms if f"{ev}[{end}]" in k and _re.search(r"\bops\.%s\b" % cls_, k) and "type(" in k]
+            if not keys:
+                bad.append(f"no test of the operation at {ev}[{end}] against {cls_}")
+                continue
+            k = keys[0]
+            want = (pol == "is")
+            if any(f(a) and a[k] != want for a in rows):
+                bad.append(f"an edge whose operation at {ev}[{end}] {'is not' if want else 'is'} {cls_} is admitted")
+        if bad:
+            ctx.fail("filter.literals", m, c, f"{q}: filter over edge_dict['{kind}']: " + "; ".join(bad), func=q, construct=f"{q}[{kind}]: " + bad[0][:60])
+        else:
+            ctx.ok("filter.literals", m, c, what=f"{q}[{kind}] implies {len(lits)} literal(s)")
+    if n < 5:
+        raise AnalysisError("filter.literals: fewer filters than the table lists")
